@@ -1,7 +1,7 @@
 (** C17 obligations over data translated from /repo's current source
     (Generated/Consts.v is rewritten by harness/cmd/translate on every run). *)
 From Coq Require Import List NArith ZArith Arith Bool.
-From Tongo Require Import Lib.Bits Lib.Res Model.Address Model.Adnl Generated.Consts
+From Tongo Require Import Lib.Bits Lib.Res Model.Address Model.Adnl Generated.Consts Generated.AddrConsts
   Proofs.Crc16P Proofs.Base64P Proofs.AddressP Proofs.AdnlP.
 Import ListNotations.
 Local Open Scope N_scope.
@@ -37,3 +37,43 @@ Theorem C17_gen_adnl_roundtrip :
   forall addr, length addr = 32%nat -> bytes_ok addr ->
   adnl_parse crc16_table (adnl_print crc16_table addr) = Ok addr.
 Proof. intros. apply adnl_roundtrip; try assumption. exact C17_gen_crc16_table. Qed.
+
+(** The integer / character literals of the modelled functions, in source
+    order (Generated/AddrConsts.v), are the ones the model was written against.
+    ToHuman: flag 0x11, testnet 0x80, non-bounce 0x40, 36-byte buffer, fields at
+    0 / 1 / 2..34 / 34..36. *)
+Theorem C17_gen_literals_account :
+  lits_ToHuman = [0x11; 0x80; 0x40; 36; 0; 1; 2; 34; 34; 36; 34] /\
+  lits_AccountIDFromBase64Url = [43; 45; 47; 95; 36; 34; 36; 0; 34; 1; 2; 34] /\
+  lits_AccountIDFromRaw = [58; 1; 1; 64; 64; 1; 1; 10; 32; 1; 32] /\
+  lits_MarshalTL = [36; 4; 4; 36] /\ lits_UnmarshalTL = [4] /\
+  lits_AccountIDFromTlb = [4; 1; 32; 1; 32; 4].
+Proof. repeat split; reflexivity. Qed.
+
+(* the model's flag byte is built from exactly these literals *)
+Theorem C17_gen_human_flag :
+  forall bounce testnet,
+  human_flag bounce testnet
+  = N.lor (N.lor (nth 0 lits_ToHuman 0) (if testnet then nth 1 lits_ToHuman 0 else 0))
+          (if bounce then 0 else nth 2 lits_ToHuman 0).
+Proof. intros [] []; reflexivity. Qed.
+
+Theorem C17_gen_literals_shard :
+  lits_ParseShardID = [0; 1; 1; 1] /\ lits_ShardEncode = [1; 1] /\ lits_MatchAccountID = [8] /\
+  lits_shardChild = [1; 1] /\ lits_shardParent = [1; 1] /\ lits_convertShardIdent = [1; 63].
+Proof. repeat split; reflexivity. Qed.
+
+(* ADNL: tag byte 0x2d, 2 checksum bytes, first character dropped; text length 55,
+   checksum over the first 33 bytes, address = bytes 1..33 *)
+Theorem C17_gen_literals_adnl :
+  lits_ADNLAddressToBase32 = [0x2d; 2; 1] /\
+  lits_ParseADNLAddress = [55; 32; 32; 0; 0x2d; 32; 33; 33; 32; 1; 33].
+Proof. repeat split; reflexivity. Qed.
+
+(* TL-B: anycast depth #<= 30 (5 bits), depth >= 1; constructor tags 0..3 on 2 bits,
+   len ## 9 (<= 511), workchain int8 / int32, 32 address bytes *)
+Theorem C17_gen_literals_tlb :
+  lits_AnycastMarshal = [30] /\ lits_AnycastUnmarshal = [30; 1] /\
+  lits_MsgAddressMarshal = [0; 2; 1; 2; 511; 9; 2; 2; 8; 3; 2; 9; 32] /\
+  lits_MsgAddressUnmarshal = [2; 0; 1; 9; 2; 8; 32; 3; 9; 32].
+Proof. repeat split; reflexivity. Qed.
